@@ -71,3 +71,23 @@ Definition scase := (list (nat * list (stmt plain)) * list nat * list (nat * lis
 Definition judge_files (c : scase) : N :=
   let '(l1, ids1, l2, ids2, base, o1, o2) := c in
   code_of (obs_eqb (model_files l1 ids1 base) o1 && obs_eqb (model_files l2 ids2 base) o2) (obs_eqb o1 o2).
+
+(* ---- insert_file by name: sources with [SInsertAt], blobs keyed by (including file, name) ------ *)
+Definition src_table (l : list (nat * list (sstmt plain))) : fid -> list (sstmt plain) :=
+  fun f => match find (fun p => Nat.eqb (fst p) f) l with
+           | Some p => snd p
+           | None => []
+           end.
+Definition blob_of (l : list (nat * nat * list Z)) : fid -> nat -> list Z :=
+  fun f nm => match find (fun p => Nat.eqb (fst (fst p)) f && Nat.eqb (snd (fst p)) nm) l with
+              | Some p => snd p
+              | None => []
+              end.
+Definition model_src (blobs : list (nat * nat * list Z)) (l : list (nat * list (sstmt plain))) (ids : list nat) (base : Z) : obs :=
+  res_obs (image (link plain emit_plain (elab_table plain (blob_of blobs) (src_table l)) struct_fuel ids base [])).
+
+(* blobs, program with inserts by name, the program with each insert written as its '.byte' data, base, observations *)
+Definition icase := (list (nat * nat * list Z) * list (nat * list (sstmt plain)) * list (nat * list (sstmt plain)) * list nat * Z * obs * obs)%type.
+Definition judge_inserts (c : icase) : N :=
+  let '(blobs, l1, l2, ids, base, o1, o2) := c in
+  code_of (obs_eqb (model_src blobs l1 ids base) o1 && obs_eqb (model_src blobs l2 ids base) o2) (obs_eqb o1 o2).
